@@ -21,6 +21,8 @@ Directives (each at the start of a line):
       //@before "pat" [#k]          (block) ghost text on its own line(s) before the line holding the k-th occurrence of pat
       //@afterline "pat" [#k]       (block) ... after that line
       //@after "pat" [#k]           (block) ... after the end of the statement that contains the occurrence
+      //@beforestmt N / //@afterstmt N   (block) structural anchor: before/after the N-th top-level statement of the body (negative: from the end)
+      //@beforetail                 (block) before the last top-level statement / tail expression of the body
       //@replace "pat" [#k|#all] => "text"     R-expr: logged textual replacement inside the function
       //@sigreplace "pat" => "text" same, restricted to the signature
       //@idxloop N k                R-idx: rewrite the N-th loop `for P in E.iter_mut()[.enumerate()]` / `for P in &mut E` as index loop over `k`
@@ -322,6 +324,74 @@ class FnUnit:
                 head, tail = l.text[:col], l.text[col:]
                 self.lines[li:li + 1] = [Line(head, l.origin)] + self.spec_lines(block, origin) + [Line(tail, l.origin)]
 
+    def top_statements(self):
+        """[(start_pos, end_pos)] of the top-level statements of the fn body (joined-text positions).
+        Block-like statements (if/match/while/for/loop/unsafe/{) end at their closing brace."""
+        text = self.joined()
+        s = Src(text)
+        bo, bc = self.body_open_pos()
+        toks = s.toks
+        i = next(k for k, t in enumerate(toks) if t[1] == bo) + 1
+        end = next(k for k, t in enumerate(toks) if t[1] == bc)
+        stmts = []
+        while True:
+            i = s.next_sig(i, end)
+            if i is None:
+                break
+            start = i
+            w = s.s(i)
+            j = i
+            if toks[i][0] == "life":     # label
+                j = s.next_sig(i + 1, end); j = s.next_sig(j + 1, end); w = s.s(j)
+            if w in ("if", "match", "while", "for", "loop", "unsafe", "{", "proof"):
+                # consume to the closing brace of the block chain
+                while True:
+                    while j < end and not (toks[j][0] == "p" and text[toks[j][1]] == "{"):
+                        if toks[j][0] == "p" and text[toks[j][1]] in "([":
+                            j = s.match(j)
+                        j += 1
+                    if j >= end: break
+                    j = s.match(j)
+                    nx = s.next_sig(j + 1, end)
+                    if nx is not None and s.s(nx) == "else":
+                        j = nx + 1
+                        continue
+                    break
+                nx = s.next_sig(j + 1, end)
+                if nx is not None and s.s(nx) in (".", "?", ";") or (nx is not None and s.s(nx) == "as"):
+                    # expression continues: fall through to `;` search
+                    pass
+                else:
+                    stmts.append((toks[start][1], toks[min(j, end - 1)][2]))
+                    i = j + 1
+                    continue
+            # ordinary statement: up to `;` at depth 0
+            while j < end:
+                tj = toks[j]
+                if tj[0] == "p":
+                    ch = text[tj[1]]
+                    if ch in "([{":
+                        j = s.match(j)
+                    elif ch == ";":
+                        break
+                j += 1
+            stmts.append((toks[start][1], toks[min(j, end - 1)][2]))
+            i = j + 1
+        return stmts
+
+    def op_stmt(self, mode, n, block, origin):
+        st = self.top_statements()
+        idx = n - 1 if n > 0 else len(st) + n
+        if not (0 <= idx < len(st)):
+            raise Undecided("lost-anchor %s %d in %s (%d statements)" % (mode, n, self.label(), len(st)))
+        a, b = st[idx]
+        if mode == "beforestmt":
+            li, _ = self.pos_to_line(a)
+            self.lines[li:li] = self.spec_lines(block, origin)
+        else:
+            li, _ = self.pos_to_line(b - 1)
+            self.lines[li + 1:li + 1] = self.spec_lines(block, origin)
+
     def op_entry(self, block, origin):
         bo, _ = self.body_open_pos()
         li, col = self.pos_to_line(bo)
@@ -596,6 +666,14 @@ def assemble(unit_path, repo):
                 if newname:
                     fu.op_rename(newname)
                 # insertions anchored by pattern / loops: apply in reverse file order is not needed because each op re-searches
+                # structural (statement-ordinal) anchors first, computed on the text before any insertion, last statement first
+                nst = len(fu.top_statements()) if any(o[0] in ("beforestmt", "afterstmt", "beforetail") for o in ops) else 0
+                def stmt_key(o):
+                    n = -1 if o[0] == "beforetail" else int(o[1].strip())
+                    return n - 1 if n > 0 else nst + n
+                for o in sorted([o for o in ops if o[0] in ("beforestmt", "afterstmt", "beforetail")], key=lambda o: (-stmt_key(o), o[0] != "afterstmt")):
+                    mode = "afterstmt" if o[0] == "afterstmt" else "beforestmt"
+                    fu.op_stmt(mode, stmt_key(o) + 1, o[2], (rel, o[3] + 1))
                 for o in ops:
                     d2, a2, block, ln = o
                     origin = (rel, ln + 1)
@@ -614,7 +692,7 @@ def assemble(unit_path, repo):
                 for o in ops:
                     if o[0] == "attr": fu.op_attr(o[2], (rel, o[3] + 1))
                 known = {"replace", "sigreplace", "assert2panic", "idxloop", "ret", "name", "before", "afterline", "after",
-                         "loop", "exit", "entry", "spec", "attr", "keepdebug"}
+                         "loop", "exit", "entry", "spec", "attr", "keepdebug", "beforestmt", "afterstmt", "beforetail"}
                 for o in ops:
                     if o[0] not in known:
                         raise Undecided("spec-syntax unknown op %s at %s:%d" % (o[0], rel, o[3]))
